@@ -77,6 +77,13 @@ CHECKS = {
             "Exhaustive within small constants, all bounds n in 0..L and unbounded enumeration on finite languages "
             "(termination by step budget); every answer compared exactly with the set computed by TLC.",
             "Trusted: TLC, projection. get_words compared up to L=4|5.", "DESIGN.md section 3 C12"),
+    "C14": ("TLA+ grammar generator (CFGGen) enumerated by TLC and filtered to useless-free grammars; FIRST/FOLLOW, the "
+            "LL(1) verdict and the table-driven parser replayed and judged by TraceParse against LL1Sem (textbook "
+            "least-fixpoint FIRST/FOLLOW/Predict) and the bounded language of CFGSem",
+            "Exhaustive within small constants over useless-free grammars (nullable variables, nullable non-empty bodies, "
+            "common prefixes, left recursion) x all words up to length 4; sets compared exactly, the verdict with the "
+            "predict-set definition, parse outcomes with membership and the documented exception.",
+            "Trusted: TLC, projection. Parse outcomes compared on words up to length 4.", "DESIGN.md section 3 C14"),
 }
 
 NOT_YET = "check not built yet in this round (see DESIGN.md section 9, build order); no claim is made"
